@@ -79,6 +79,11 @@ func (vc VisitorContext) Visit(node jet.Node) {
 		vc.visitIndexExprNode(node)
 	case *jet.SliceExprNode:
 		vc.visitSliceExprNode(node)
+	case *jet.TryNode:
+		vc.visitTryNode(node)
+	case *jet.ReturnNode:
+		vc.visitNode(node.Value)
+	case *jet.UnderscoreNode:
 	case *jet.TextNode:
 	case *jet.IdentifierNode:
 	case *jet.StringNode:
@@ -93,7 +98,22 @@ func (vc VisitorContext) Visit(node jet.Node) {
 }
 
 func (vc VisitorContext) visitIncludeNode(includeNode *jet.IncludeNode) {
-	vc.visitNode(includeNode)
+	vc.visitNode(includeNode.Name)
+	if includeNode.Context != nil {
+		vc.visitNode(includeNode.Context)
+	}
+}
+
+func (vc VisitorContext) visitTryNode(tryNode *jet.TryNode) {
+	vc.visitNode(tryNode.List)
+	if tryNode.Catch != nil {
+		if tryNode.Catch.Err != nil {
+			vc.visitNode(tryNode.Catch.Err)
+		}
+		if tryNode.Catch.List != nil {
+			vc.visitNode(tryNode.Catch.List)
+		}
+	}
 }
 
 func (vc VisitorContext) visitBlockNode(blockNode *jet.BlockNode) {
@@ -144,9 +164,11 @@ func (vc VisitorContext) visitBranchNode(branchNode *jet.BranchNode) {
 }
 
 func (vc VisitorContext) visitYieldNode(yieldNode *jet.YieldNode) {
-	for _, node := range yieldNode.Parameters.List {
-		if node.Expression != nil {
-			vc.visitNode(node.Expression)
+	if yieldNode.Parameters != nil { // nil for {{yield content}}
+		for _, node := range yieldNode.Parameters.List {
+			if node.Expression != nil {
+				vc.visitNode(node.Expression)
+			}
 		}
 	}
 	if yieldNode.Expression != nil {
@@ -167,7 +189,9 @@ func (vc VisitorContext) visitSetNode(setNode *jet.SetNode) {
 }
 
 func (vc VisitorContext) visitAdditiveExprNode(additiveExprNode *jet.AdditiveExprNode) {
-	vc.visitNode(additiveExprNode.Left)
+	if additiveExprNode.Left != nil { // nil for a unary + or -
+		vc.visitNode(additiveExprNode.Left)
+	}
 	vc.visitNode(additiveExprNode.Right)
 }
 
@@ -215,8 +239,12 @@ func (vc VisitorContext) visitIndexExprNode(indexNode *jet.IndexExprNode) {
 
 func (vc VisitorContext) visitSliceExprNode(sliceExprNode *jet.SliceExprNode) {
 	vc.visitNode(sliceExprNode.Base)
-	vc.visitNode(sliceExprNode.Index)
-	vc.visitNode(sliceExprNode.EndIndex)
+	if sliceExprNode.Index != nil { // a[:j]
+		vc.visitNode(sliceExprNode.Index)
+	}
+	if sliceExprNode.EndIndex != nil { // a[i:]
+		vc.visitNode(sliceExprNode.EndIndex)
+	}
 }
 
 func (vc VisitorContext) visitCommandNode(commandNode *jet.CommandNode) {
